@@ -206,7 +206,7 @@ PROPS = {
                 "writes one TLS record per piece; (b) six NTS-protected exchanges with losses whose datagrams are decoded and re-encoded in flight (NTP header identity, accessors, NTS field kinds/alignment vs the harness's walker); "
                 "(c) round trips of generated values through the real codecs: NTP headers (8/16-bit fields cycled with the run index), CSPTP messages and both TLVs with and without server state, plain and sealed server cookies with unequal key lengths, "
                 "NTS requests/responses at every pool level, NTS-KE records; non-trivial = at least two segmented decodes; distinct = distinct event-log hash",
-        "required_probes": ["segmentation-checked", "codecs-checked", "nts-datagram-monitored", "unaligned-cookie-request"],
+        "required_probes": ["segmentation-checked", "codecs-checked", "nts-datagram-monitored", "unaligned-cookie-request", "reused-destination-decoded"],
         "components": {"real": ["net/ntske ReadData, ExchangeMsg.Pack, cookies", "net/nts EncodePacket/DecodePacket/Process*", "net/ntp EncodePacket/DecodePacket", "net/csptp Encode*/Decode*", "core/server newNTSKEMsg", "crypto/tls"],
                        "stub": dict(STUBS_COMMON, **{"TCP": "simnet streams with explicit cut positions"})},
         "assumptions": ["the 'for all field values' quantifier of the codec clauses is covered by generation only (8/16-bit fields are swept across the runs of a batch, wider fields are random); only the segmentation clause is a schedule property",
